@@ -95,7 +95,7 @@ func GenShardScript(t *rapid.T, unhealthyPct int, label string) ShardSpec {
 		return s
 	}
 	s.Status2Fail = rapid.IntRange(0, 2).Draw(t, label+"-status2") == 0
-	s.FailShape = rapid.SampledFrom([]string{"", "503-error", "500-success", "500-success", "200-error", "200-garbage", "404-empty"}).Draw(t, label+"-failShape")
+	s.FailShape = rapid.SampledFrom([]string{"", "503-error", "500-success", "500-success", "200-error", "200-garbage", "404-empty", "400-error", "400-error"}).Draw(t, label+"-failShape")
 	switch rapid.IntRange(0, 8).Draw(t, label+"-kind") {
 	case 0:
 		s.Ready = false
@@ -131,7 +131,8 @@ func GenOptions(t *rapid.T, b Bias, nShards int) Options {
 	if rapid.IntRange(0, 9).Draw(t, "headLimitOn") < 6 {
 		o.MaxHead = 1000
 	}
-	o.MaxProc = rapid.SampledFrom([]int64{1000, 2500}).Draw(t, "maxProc")
+	// the process limit may be below the head limit, or practically unlimited (shards limited by head series only)
+	o.MaxProc = rapid.SampledFrom([]int64{1000, 2500, 1000, 2500, 600, 1000000000000000000}).Draw(t, "maxProc")
 	switch rapid.IntRange(0, 5).Draw(t, "minKind") {
 	case 0, 1:
 		o.Min = 0
@@ -165,6 +166,14 @@ func GenOptions(t *rapid.T, b Bias, nShards int) Options {
 	return o
 }
 
+// sizeBase is the process limit target sizes are drawn around (a practically unlimited one gives ordinary sizes)
+func sizeBase(opt Options) int64 {
+	if opt.MaxProc > 1000000 {
+		return 2500
+	}
+	return opt.MaxProc
+}
+
 // GenReplica draws shards (scripts, holdings) for the given discovered targets.
 func GenReplica(t *rapid.T, b Bias, opt Options, targets []TargetSpec, prefix string) ReplicaSpec {
 	n := rapid.IntRange(b.MinShards, b.MaxShards).Draw(t, prefix+"nShards")
@@ -180,7 +189,7 @@ func GenReplica(t *rapid.T, b Bias, opt Options, targets []TargetSpec, prefix st
 		if rapid.IntRange(0, 9).Draw(t, fmt.Sprintf("%ss%d-extraOn", prefix, i)) < 3 {
 			lim := opt.MaxHead
 			if lim == 0 {
-				lim = opt.MaxProc
+				lim = sizeBase(opt)
 			}
 			s.HeadExtra = sizeNear(t, lim, false, fmt.Sprintf("%ss%d-extra", prefix, i))
 		}
@@ -218,6 +227,7 @@ func GenReplica(t *rapid.T, b Bias, opt Options, targets []TargetSpec, prefix st
 			}
 			if h.Health != "unknown" {
 				h.Times = uint64(rapid.IntRange(0, 6).Draw(t, fmt.Sprintf("%s-c%d-times", label, c)))
+				h.LastAgoS = rapid.SampledFrom([]int{0, 0, 0, 20, 900, 7200}).Draw(t, fmt.Sprintf("%s-c%d-lastAgo", label, c))
 			}
 			if rapid.IntRange(0, 4).Draw(t, fmt.Sprintf("%s-c%d-vary", label, c)) == 0 {
 				h.Series = h.Series / 2
@@ -238,7 +248,7 @@ func GenReplica(t *rapid.T, b Bias, opt Options, targets []TargetSpec, prefix st
 	for i := 0; i < nv; i++ {
 		lim := opt.MaxHead
 		if lim == 0 {
-			lim = opt.MaxProc
+			lim = sizeBase(opt)
 		}
 		sz := sizeNear(t, lim, true, fmt.Sprintf("%sv%d-size", prefix, i))
 		place(uint64(100+i), sz, sz, rapid.IntRange(1, 2).Draw(t, fmt.Sprintf("%sv%d-copies", prefix, i)), fmt.Sprintf("%sv%d", prefix, i))
@@ -267,7 +277,7 @@ func GenTargets(t *rapid.T, b Bias, opt Options) []TargetSpec {
 		}
 		lim := opt.MaxHead
 		if lim == 0 {
-			lim = opt.MaxProc
+			lim = sizeBase(opt)
 		}
 		ts.Series = sizeNear(t, lim, b.SmallSizes, fmt.Sprintf("t%d-series", i))
 		switch rapid.IntRange(0, 7).Draw(t, fmt.Sprintf("t%d-totalKind", i)) {
@@ -276,16 +286,16 @@ func GenTargets(t *rapid.T, b Bias, opt Options) []TargetSpec {
 		case 3:
 			ts.Total = ts.Series + int64(rapid.IntRange(1, 50).Draw(t, fmt.Sprintf("t%d-totalSmall", i)))
 		case 4:
-			ts.Total = ts.Series + opt.MaxProc/2
+			ts.Total = ts.Series + sizeBase(opt)/2
 		case 5:
-			ts.Total = sizeNear(t, opt.MaxProc, false, fmt.Sprintf("t%d-total", i))
+			ts.Total = sizeNear(t, sizeBase(opt), false, fmt.Sprintf("t%d-total", i))
 			if ts.Total < ts.Series {
 				ts.Total = ts.Series
 			}
 		case 6:
 			ts.Total = ts.Series * 3
 		default:
-			ts.Total = ts.Series + opt.MaxProc
+			ts.Total = ts.Series + sizeBase(opt)
 		}
 		out = append(out, ts)
 	}
